@@ -49,7 +49,7 @@ QUICK_EXCLUDE = {
     "C13": {"enc_len_response"},
     "C07": {"dec_witness"},
     "C04": {"ns_frame_connected_10_k0_req"},
-    "C10": {"ns_frame_connected_10_k0_req", "srv_disconnect_01"},
+    "C10": {"ns_frame_connected_10_k0_req", "srv_disconnect_11"},
 }
 
 
@@ -270,7 +270,7 @@ for nm in ("rt_renet_rev_t0", "rt_renet_rev_t2", "rt_renet_rev_t4"):
     L(nm, props=["C16"], variant=VV, tier="thorough", timeout=1800, mem_gb=16, functions="Packet::from_bytes, Packet::to_bytes",
       claim="a byte string that decodes re-encodes to bytes that decode to the same value", bound="all byte strings <= 8 B of packet type %s" % nm[-1], **RP)
 L("ser_short_buffer", props=["C13"], variant=VV, functions="Packet::to_bytes", claim="a too small buffer yields BufferTooShort, never a panic or an over-long write", bound="buffer 0..=24 B", **RP)
-L("pk_witness", props=["C06", "C16", "C13"], variant=VV, expect="fail", functions="-", claim="vacuity witness", **RP)
+L("pk_witness", props=["C06", "C16", "C13"], variant=VV, expect="fail", tier="thorough", mem_gb=30, timeout=1800, functions="-", claim="vacuity witness", **RP)
 
 # renet: server (C11, C12)
 RS = dict(crate="renet", file="server.rs")
@@ -324,6 +324,19 @@ TK = dict(crate="renetcode", file="token.rs", variant={"fs": 512}, stubs="chacha
 # are NOT registered: every instance ran into the 900 s cap (1024-byte sealed part / 1300-byte source: arrays above
 # CBMC's flattening threshold).  Token parsing / round trips are therefore outside the claims of C07 / C16 / C05.
 
+# Private-token lemmas at SHRUNK sizes (private part 192 B, user data 8 B; token.rs is parametric in both): seal / open round trip
+# and what the seal is bound to.  The public ConnectToken::read lemmas (symbolic-length source) still exceed 15 min and stay unregistered.
+TKS = dict(crate="renetcode", file="token.rs", variant={"fs": 512, "consts": {"NETCODE_USER_DATA_BYTES": 8, "NETCODE_CONNECT_TOKEN_PRIVATE_BYTES": 192}},
+           stubs="chacha20poly1305 primitive -> models/chacha.rs (identity cipher, recorded calls)")
+for nm, tier in (("rt_token_priv_k1_v4", "quick"), ("rt_token_priv_k1_v6", "thorough"), ("rt_token_priv_k2_mix", "thorough"), ("rt_token_priv_k3_mix", "thorough")):
+    L(nm, props=["C16", "C05", "C17"], tier=tier, timeout=900, mem_gb=14, functions="PrivateConnectToken::{encode, decode, write, read}, write_server_addresses, read_server_addresses, get_additional_data, crypto::*_xnonce",
+      claim="a private connect token seals under (server key, token xnonce) with aad = VERSION | protocol id | expiry - so a changed public expiry or protocol id is another AEAD tuple - and opens to exactly "
+            "the id, timeout, address list, keys and user data that were sealed",
+      bound="%s listed address(es) with fixed families, every other field symbolic; user data witnessed at one offset; private part 192 B, user data 8 B (constants shrunk)" % nm.split("_k")[1][0], **TKS)
+L("tok_priv_decode_total", props=["C07"], timeout=900, mem_gb=14, functions="PrivateConnectToken::{decode, read}, read_server_addresses",
+  claim="opening and parsing a private token returns normally whatever its bytes and whatever the AEAD answers", bound="one IPv4 address announced (offsets concrete), all other bytes symbolic; sizes shrunk", **TKS)
+L("tokp_witness", props=["C16", "C05", "C17", "C07"], expect="fail", functions="-", claim="vacuity witness", **TKS)
+
 # --------------------------------------------------------------------------------------------
 # renetcode: server (C05, C07, C10, C17, C18, C19)   model-small: NETCODE_MAX_CLIENTS 1024 -> 2
 NS = dict(crate="renetcode", file="server.rs", variant={"fs": 512, "max_clients": 2, "cap": 2},
@@ -367,7 +380,7 @@ for nm, tier in (("ns_frame_connected_01_k1", "quick"), ("ns_frame_connected_11_
             "session's receive key and is attributed to this slot's id; the slot is cleared exactly on disconnect, no other slot changes; nothing is sealed or replied; a datagram that does not "
             "authenticate (forged, other key, other protocol, wrong kind, replayed, or an unauthenticated connection request) leaves timeout clock, confirmed flag, window and counters unchanged",
       bound=_NSB % nm.split("_")[3] + ("; datagram of request size (type-0 datagrams parse)" if nm.endswith("req") else "; datagram of 40 B"), **NSC)
-for nm, tier in (("ns_update_client_11_k0", "thorough"), ("ns_update_client_11_k1", "quick"), ("ns_update_client_01_k1", "thorough")):
+for nm, tier in (("ns_update_client_11_k0", "thorough"), ("ns_update_client_11_k1", "thorough"), ("ns_update_client_01_k1", "quick")):
     L(nm, props=["C18", "C17", "C10"], tier=tier, timeout=900, mem_gb=14, functions="NetcodeServer::update_client",
       claim="a connected client is dropped iff timeout > 0 and last authentic packet + timeout < now (reported once with its id / address, slot cleared, disconnect sealed under (send key, sequence)); "
             "otherwise a keep-alive is sealed under (send key, sequence) iff the send timer elapsed and the sequence advances exactly once; the receive clock and the other slot are untouched",
@@ -383,7 +396,7 @@ L("ns_update_pending", props=["C18"], timeout=900, mem_gb=14, functions="Netcode
 L("ns_frame_unknown", props=["C07", "C19", "C05"], timeout=900, mem_gb=14, functions="NetcodeServer::process_packet_internal (new-address branch)",
   claim="a datagram shorter than a connection request from an address that is neither connected nor pending is an error: no reply, no state change, whatever it claims to be",
   bound=_NSB % "10" + "; all datagrams of 0..=40 B", **NSC)
-for nm in ("ns_req_guard_00_e0", "ns_req_guard_10_e1", "ns_req_guard_11_e0", "ns_req_guard_10_e0_pend"):
+for nm in ("ns_req_guard_00_e0", "ns_req_guard_10_e1", "ns_req_guard_11_e0", "ns_req_guard_11_e1", "ns_req_guard_10_e0_pend"):
     L(nm, props=["C05", "C19", "C17", "C10", "C18"], tier="thorough", timeout=2400, mem_gb=20,
       functions="NetcodeServer::{process_packet_internal, handle_connection_request, find_or_add_connect_token_entry}",
       claim="a connection request (all fields attacker chosen) is answered only if version / protocol id match, the clock is before the expiry it announces, its private token is authentic under "
@@ -400,9 +413,10 @@ for nm in ("ns_resp_guard_00", "ns_resp_guard_10", "ns_resp_guard_01", "ns_resp_
             "(send key, sequence) and the sequence advances; a denied reply only when no slot is free, sealed with the server-wide sequence which then advances; otherwise the connection table is "
             "unchanged; a valid response connects when a slot is free",
       bound=_NSB % nm[-2:], **NSC)
-L("ns_set_max_clients", props=["C18", "C10"], timeout=900, mem_gb=14, functions="NetcodeServer::set_max_clients",
-  claim="after changing the client limit there are at least as many slots as the limit allows (so a handshake below the limit is not denied for lack of a slot) and existing sessions are untouched",
-  bound="server constructed with 1 slot (occupied), any requested limit (NETCODE_MAX_CLIENTS shrunk to 2)", **NSC)
+for nm in ("ns_set_max_clients_n0", "ns_set_max_clients_n1", "ns_set_max_clients_n2", "ns_set_max_clients_n9"):
+    L(nm, props=["C18", "C10"], tier="quick" if nm.endswith("n2") else "thorough", timeout=900, mem_gb=14, functions="NetcodeServer::set_max_clients",
+      claim="after changing the client limit there are at least as many slots as the limit allows (so a handshake below the limit is not denied for lack of a slot) and existing sessions are untouched",
+      bound="server constructed with 1 slot (occupied); requested limit %s (NETCODE_MAX_CLIENTS shrunk to 2)" % nm[-1], **NSC)
 L("ns_witness", props=["C04", "C05", "C07", "C10", "C13", "C17", "C18", "C19"], expect="fail", functions="-", claim="vacuity witness (contract variant)", **NSC)
 
 
